@@ -116,7 +116,7 @@ func Gen(t *rapid.T) *Universe {
 		rootRetrieval = rapid.SampledFrom([]string{"http://h.test/root.json", "http://h.test/dir/root.json", "http://h.test/a/b/root.json", "http://h.test/dir/root.json", "http://p.test", "http://p.test/", "http://h.test/dir/"}).Draw(t, "rooturi")
 	}
 	g.newDoc(rootRetrieval, true)
-	remoteURIs := []string{"http://h.test/a.json", "http://h.test/dir/b.json", "http://other.test/c.json", "http://h.test/a/b/d.json", "http://h.test/dir/sub/e.json", "http://q.test"}
+	remoteURIs := []string{"http://h.test/a.json", "http://h.test/dir/b.json", "http://other.test/c.json", "http://h.test/a/b/d.json", "http://h.test/dir/sub/e.json", "http://q.test", "http://h.test/Case.json", "http://h.test/case.json", "http://h.test/dir/B.json"}
 	for i := 0; i < nRemote; i++ {
 		g.newDoc(remoteURIs[(i+g.n(len(remoteURIs), "remoteuri"))%len(remoteURIs)], false)
 	}
